@@ -32,6 +32,7 @@ type engineImpl struct {
 	exit  int // recorded Store.Exit code (0 = none)
 
 	dbf, jf, wf, sf *os.File
+	mount           *mountImpl // non-nil (suite flag "mount"): application-side operations go through the FUSE handlers
 	client          *fakeClient
 
 	bg        *bgOp  // Export / snapshot running in a second goroutine
@@ -149,6 +150,9 @@ func (m *engineImpl) Close() {
 }
 
 func (m *engineImpl) closeFiles() {
+	if m.mount != nil {
+		m.mount.forget()
+	}
 	for _, f := range []**os.File{&m.dbf, &m.jf, &m.wf, &m.sf} {
 		if *f != nil {
 			_ = (*f).Close()
@@ -191,6 +195,15 @@ func (m *engineImpl) openStore(role string) error {
 	}
 	st.Compress = m.c != nil && m.c.Flag("lz4")
 	st.OS = &crashOS{m: m}
+	m.mount = nil
+	if m.c != nil && m.c.Flag("mount") {
+		// application-side operations go through the FUSE layer's handlers (harness/mount.go)
+		mt, err := newMount(st)
+		if err != nil {
+			return err
+		}
+		m.mount = mt
+	}
 	if m.configure != nil {
 		if err := m.configure(st); err != nil {
 			return err
@@ -315,6 +328,14 @@ func (m *engineImpl) do1(line string) string {
 	m.opCount++
 	if m.crashing && f[0] != "crash-end" && f[0] != "commit-point" {
 		m.snapshot("op:" + f[0]) // boundary before each operation of the transaction
+	}
+	if m.mount != nil {
+		if obs, handled := m.mount.do(m, ctx, f); handled {
+			if m.c != nil {
+				m.c.Count("mount." + f[0])
+			}
+			return obs
+		}
 	}
 	switch f[0] {
 	case "crash-begin": // open a crash window: every OS call / page write from now on is a crash point
